@@ -182,7 +182,10 @@ def payload_sets(rng, thorough):
         combos += [''.join(rng.choice(META) for _ in range(3)) for _ in range(600)]
     look = ['n:1', 's:x', 'm:', 'z:', 'x:', '-:', 'r:a b', 'u:x', 'b:x', 't:2020-01-01T00:00:00Z UTC', 'd:2020-01-01', 'h:12:00', 'c:1,2', 'x:Foo:bar', '>>', '<<', '\n\n',
             '\nver:"3.0"\nx\n1\n', '","', '`,`', '\\', '\\\\', '\\"', '\\u0041', '\\$', '$$', '"]', '"}', '")', '")>>', ' ', '  ', '', '\r\n', 'N', 'M', 'T', 'NA',
-            '{"a":1}', '[1,2]', '"quoted"', 'null', 'true']
+            '{"a":1}', '[1,2]', '"quoted"', 'null', 'true',
+            # a type-prefixed look-alike on a LATER line of the payload (anchors under re.MULTILINE), and before a final newline
+            'see\nh:12:30', 'x\nd:2020-01-01', 'x\nt:2020-01-01T00:00:00Z UTC', 'a\nn:5', 'a\nn:5 kg', 'q\nm:', 'x\nr:abc', 'y\ns:z', 'x\nc:1,2', 'x\nx:T:v',
+            'h:12:30\nsee', 'd:2020-01-01\n', 'n:5\n', 'h:12:30\n', 't:2020-01-01T00:00:00Z UTC\n', 'x\r\nh:12:30', 'x\u2028h:12:30', 'x\x0bh:12:30']
     longer = [codec.gen_text(rng) for _ in range(1500 if thorough else 300)]
     longer += [''.join(rng.choice(META + ['a', 'é', '\ud800', '\udfff']) for _ in range(rng.randint(4, 12))) for _ in range(3000 if thorough else 400)]
     # a high surrogate directly followed by a low one is not a code-point sequence (it is the UTF-16 form of one
